@@ -450,7 +450,8 @@ pub fn gen_agg_call(rng: &mut Rng, s: &Schema, cfg: &ExprCfg, order_insensitive_
             E::Agg(rng.pick(&["min", "max"]).to_string(), false, vec![agg_arg(rng, s, &t, cfg)])
         }
         6 => { let t = summable(rng); E::Agg("avg".into(), false, vec![agg_arg(rng, s, &t, cfg)]) }
-        7 => { let t = summable(rng); E::Agg(rng.pick(&["stddev", "variance"]).to_string(), false, vec![agg_arg(rng, s, &t, cfg)]) }
+        // (over INTERVAL they never have a value - open finding C04 - so there is nothing to compare between orders)
+        7 => { let t = if order_insensitive_only { if rng.chance(2, 3) { Ty::Int } else { Ty::Real } } else { summable(rng) }; E::Agg(rng.pick(&["stddev", "variance"]).to_string(), false, vec![agg_arg(rng, s, &t, cfg)]) }
         8 | 9 => { let t = match rng.below(4) { 0 => Ty::Real, 1 => Ty::Text, _ => Ty::Int }; E::Agg("percentile".into(), false, vec![agg_arg(rng, s, &t, cfg), E::Real(*rng.pick(PERCENTILES))]) }
         // sometimes over a condition that has no value on some rows (division by a column that is 0 there)
         10 => E::Agg(rng.pick(&["bool_and", "bool_or"]).to_string(), false, vec![if rng.chance(1, 3) { bin(*rng.pick(&[">=", "<", "="]), bin("/", int(120), col(&named(s, "i", &Ty::Int))), int(*rng.pick(&[10, 30, 60]))) } else { agg_arg(rng, s, &Ty::Bool, cfg) }]),
